@@ -243,6 +243,16 @@ fn main() {
             cases.push(c);
         }
     }
+    // (b'') the base grammars with every token declared %avoid_insert: whatever recovery inserts
+    // is then an "avoided" token, and the actions must still see it as an inserted (Err) lexeme
+    for (bn, b) in [("corchuelo", &base), ("emptylist", &base2)] {
+        for kind in ["grmtools", "useraction"] {
+            let mut c = mk(&format!("{}_avoid_{}", bn, kind), b, kind, "cpctplus", 4);
+            let toks: Vec<String> = (0..b.ntoks).filter(|t| b.rules.iter().flatten().flatten().any(|s| *s == Sym::T(*t))).map(|t| format!("'{}'", b.tok_name(t))).collect();
+            c.y = c.y.replacen("%expect-unused", &format!("%avoid_insert {}\n%expect-unused", toks.join(" ")), 1);
+            cases.push(c);
+        }
+    }
     // (c) lexer-centred cases: flags, start states, skip rules, non-ASCII names
     {
         let y = "%grmtools{yacckind: Original(GenericParseTree)}\n%start S\n%expect-unused Unmatched 'UNMATCHED'\n%%\nS: | S T;\nT: 'A' | 'É' | 'OPEN' S 'CLOSE';\nUnmatched: 'UNMATCHED';\n".to_string();
@@ -309,7 +319,7 @@ fn main() {
         let lmod_static: &'static str = Box::leak(lmod.clone().into_boxed_str());
         let res = lrlex::CTLexerBuilder::<lrlex::DefaultLexerTypes<u32>>::new()
             .lrpar_config(move |ctp| {
-                let mut ctp = ctp.grammar_path(&ypc).output_path(&cyo).mod_name(ymod_static).recoverer(rec).visibility(vis(&cvis)).rust_edition(ed).error_on_conflicts(false).show_warnings(false);
+                let mut ctp = ctp.grammar_path(&ypc).output_path(&cyo).mod_name(ymod_static).recoverer(rec).visibility(vis(&cvis)).rust_edition(ed).error_on_conflicts(false).warnings_are_errors(false).show_warnings(false);
                 let _ = &cymod;
                 if let Some(s) = cser {
                     ctp = ctp.serialisation_format(if s == "fixed" { lrpar::SerialisationFormat::FixedSizeInteger } else { lrpar::SerialisationFormat::VariableSizedInteger });
